@@ -31,9 +31,8 @@ MANIFEST_ENTRY = {
             "of the memory-level model simulates the abstract one (C11_heap_refinement). The refinement carries a mark invariant (no 16-aligned address "
             "other than a chunk header or the end node carries the used mark), from which: after any history dealloc (and realloc) of ANY non-nil pointer that is "
             "not a live block panics - double frees, pointers of an earlier generation, pointers into payloads, one past the end of the buffer "
-            "(C11_heap_mem_invalid_free_reported, full strength after the repairs 9ef0717 and d9328b9). TWO OPEN FINDINGS about Heap:add_memory_region: a region with room "
-            "for one node passes the code's check and hands out memory beyond the buffer (the theorems assume room for two nodes; _code_check_refuted is the witness), "
-            "and a SIZE that is not a multiple of 8 puts the end node at a misaligned address (undefined behaviour, seen under -fsanitize=alignment). Every write of the memory-level heap goes to a header word of an old or new chunk, so no operation changes a word of a block that stays live (C11_heap_mem_payload_frame). The derived operations of Allocator_implement_interface (alloc0/realloc0/x*/span*/new/delete) are modelled "
+            "(C11_heap_mem_invalid_free_reported, full strength after the repairs 9ef0717 and d9328b9). The size clause of the heap hypothesis is exactly the check of add_memory_region (room for two nodes, repair 23ac203) and the end node is "
+            "16-aligned for every configuration (C11_heap_geometry), so the word-addressed memory of the model is exact (C11_heap_mem_writes_aligned). Every write of the memory-level heap goes to a header word of an old or new chunk, so no operation changes a word of a block that stays live (C11_heap_mem_payload_frame). The derived operations of Allocator_implement_interface (alloc0/realloc0/x*/span*/new/delete) are modelled "
             "generically over the primitives with theorems that they are the stated primitive calls; span counts and AlignedAllocator requests never wrap "
             "(C11_arena_span_in, C11_aligned_fits: full strength after the repairs 942989e, 532034f). TESTING ONLY (shadow-map oracle on the real allocators): "
             "heap/stack/pool payload contents at the memory level, AlignedAllocator over whole histories, the derived operations on the real code, release builds. "
@@ -41,8 +40,7 @@ MANIFEST_ENTRY = {
             "constants and line-by-line correspondence of offsets and of the complete internal state.",
     "note": "trusted: Coq 8.16.1 kernel; the hand-written models (tied to /repo by regenerated constants and by differential correspondence of offsets and of the "
             "complete internal state after every operation, which is testing, not proof); extraction with ExtrOcamlBasic; OCaml/Nelua/Python harness glue. "
-            "Payload bytes are byte functions separate from the header memory; the header memory is word-addressed (proved exact for the writes when the end node is 8-aligned, "
-            "C11_heap_mem_writes_aligned; a HeapAllocator whose SIZE is not a multiple of 8 accesses its end node misaligned - open finding); GeneralAllocator (libc) and GCAllocator (C10) are outside; "
+            "Payload bytes are byte functions separate from the header memory; the header memory is word-addressed (proved exact: every written word is 8-aligned, C11_heap_mem_writes_aligned); GeneralAllocator (libc) and GCAllocator (C10) are outside; "
             "release builds are not exercised.",
     "technique": "machine-checked proof in Coq over executable models (incl. a proved refinement memory-level -> abstract heap) + extracted-model/implementation "
                  "correspondence on interactive histories + shadow-map property oracle",
@@ -56,7 +54,7 @@ THEOREM_CLASSES = {
     "C11_heap_refinement": "main", "C11_heap_mem_safe": "corollary",
     "C11_heap_mem_invalid_free_reported": "main", "C11_heap_mem_invalid_free_reported_full": "corollary",
     "C11_heap_mem_invalid_realloc_reported": "corollary",
-    "C11_heap_mem_payload_frame": "main", "C11_heap_mem_writes_aligned": "main", "C11_heap_mem_safe_code_check_refuted": "refutation",
+    "C11_heap_mem_payload_frame": "main", "C11_heap_mem_writes_aligned": "main", "C11_heap_geometry": "definitional",
     "C11_heap_realloc_preserves": "main", "C11_heap_alloc0_zeroes": "definitional", "C11_heap_realloc0_zeroes": "definitional",
     "C11_iface_alloc0": "definitional", "C11_iface_xalloc": "definitional", "C11_iface_xrealloc": "definitional",
     "C11_iface_realloc0": "definitional", "C11_iface_spanalloc": "main", "C11_iface_spanrealloc": "definitional",
@@ -67,7 +65,7 @@ THEOREM_CLASSES = {
 ALLOWED_AXIOMS = []
 TRUSTED_BASE = [
     "coqc 8.16.1 kernel (vm_compute used for parameter facts and refutation witnesses; no native_compute)",
-    "no axioms: every theorem of coq/C11/Properties.v is 'Closed under the global context'; models mirror lib/allocators after the repairs 484ce8f, 961d315, 942c78c, b8d094a, 942989e, 532034f, 9ef0717, d9328b9",
+    "no axioms: every theorem of coq/C11/Properties.v is 'Closed under the global context'; models mirror lib/allocators after the repairs 484ce8f, 961d315, 942c78c, b8d094a, 942989e, 532034f, 9ef0717, d9328b9, 23ac203",
     "translator checks/C11.py:gen (regex scrape of ALLOC_ALIGN/MIN_ALLOC_SIZE/BIN_COUNT/BIN_MAX_LOOKUPS/NODE_COOKIE/HeapNode fields/get_bin_index constants in heap.nelua, StackAllocHeader + static asserts in stack.nelua, default ALIGN in arena.nelua; typedefs.maxalign and pointer size probed through the real compiler)",
     "extraction: Require Extraction + ExtrOcamlBasic only; Z/positive/nat stay Coq inductives; no Extract Constant of our own",
     "ocaml/zutil.ml + coq/C11/driver.ml (line protocol, handle table, closures handing an instance's primitives to the extracted interface wrappers, printing of the model state), harness/C11/driver.nelua (calls the allocators, keeps the handle table, prints offsets and internal state read through the allocator records), OCaml 4.13.1, gcc, the Nelua compiler itself (the driver is compiled by it, default checked build)",
@@ -77,9 +75,9 @@ TRUSTED_BASE = [
 ]
 ASSUMPTIONS = [
     "the buffer is a real object: base > 0 and base + SIZE + ALIGN + header (+ MIN_ALLOC_SIZE for the heap) <= 2^64 (no address wrap)",
-    "heap: the region has room for two nodes, SIZE >= 2*NODE + ALLOC_ALIGN = 80 (hcfg_ok). The code's own check demands one node only; below 80 bytes the statement is false (C11_heap_mem_safe_code_check_refuted, open finding 'heap(48): alloc 100')",
+    "heap: the region passes the check of add_memory_region, alignment offset + 2*NODE <= SIZE (hcfg_ok states exactly that check, repair 23ac203)",
     "clients write only inside blocks they own (frame condition of the stack/pool theorems). The heap's memory-level model has no client writes: C11_heap_mem_invalid_free_reported says that the ALLOCATOR never leaves a used mark (next=1, prev=NODE_COOKIE) anywhere but at chunk headers and the end node; a client that writes that 16-byte pattern into its own payload can still forge a header (inherent to a cookie test)",
-    "the heap's header memory is word-addressed (address -> 64-bit word). C11_heap_mem_writes_aligned proves that this is exact for the writes when the end node is 8-aligned (all written words are 8-aligned, hence pairwise equal or disjoint); for a SIZE that is not a multiple of 8 the real end node is accessed misaligned (open finding 'heap(1001): alloc 8 [-fsanitize=alignment]'; instance h6 of the harness exercises that case in the correspondence, and x86 tolerates it). Reads through invalid client pointers (the invalid-free theorems) are 8-aligned too because get_ptr_node refuses pointers that are not 16-aligned",
+    "the heap's header memory is word-addressed (address -> 64-bit word). C11_heap_mem_writes_aligned proves, for every configuration, that all written words are 8-aligned (hence pairwise equal or disjoint: the picture is exact for a byte-addressed memory); reads are header words of 16-aligned nodes, and reads through invalid client pointers are 8-aligned too because get_ptr_node refuses pointers that are not 16-aligned",
     "correspondence is differential testing over generated histories, not a proof that model = code",
     "checked (default) build: check()/bounds checks abort; release builds are not exercised",
 ]
@@ -270,7 +268,8 @@ class Shadow:
             self.cap = info["size"]
             self.align = P["ALLOC_ALIGN"]
             self.hs = (-self.base) % self.align              # offset of heap_start
-            self.hend = self.hs + (self.cap - self.hs - P["HEAP_NODE_SIZE"])
+            # repair 23ac203: the heap size is rounded down so that the end node is aligned
+            self.hend = self.hs + (self.cap - self.hs - P["HEAP_NODE_SIZE"]) // P["ALLOC_ALIGN"] * P["ALLOC_ALIGN"]
 
     def bad(self, what, detail=""):
         self.problems.append((what, detail))
@@ -603,7 +602,7 @@ def max_initial_request(sh, P):
         return sh.cap - first
     if sh.kind == "pool":
         return sh.info["chunk"]
-    s0 = (sh.cap - sh.hs - P["HEAP_NODE_SIZE"]) - P["HEAP_NODE_SIZE"]       # size of the initial free chunk
+    s0 = (sh.cap - sh.hs - P["HEAP_NODE_SIZE"]) // P["ALLOC_ALIGN"] * P["ALLOC_ALIGN"] - P["HEAP_NODE_SIZE"]       # size of the initial free chunk
     return (s0 + P["HEAP_NODE_SIZE"]) // P["ALLOC_ALIGN"] * P["ALLOC_ALIGN"] - P["HEAP_NODE_SIZE"]
 
 
@@ -754,10 +753,10 @@ def run_history(R, rng, nops, style):
 
 
 # --------------------------------------------------------------------------------------------
-# histories of the eleven repaired defects (replayed every run, must pass) and scripted precondition-violating histories
+# histories of the twelve repaired defects (replayed every run, must pass) and scripted precondition-violating histories
 # --------------------------------------------------------------------------------------------
 BIG = M64 - 8
-# each was a known finding until the fix commits 484ce8f / 961d315 / 942c78c / b8d094a / 942989e / 532034f / 9ef0717 / d9328b9; the text says what used to fail
+# each was a known finding until the fix commits 484ce8f / 961d315 / 942c78c / b8d094a / 942989e / 532034f / 9ef0717 / d9328b9 / 23ac203; the text says what used to fail
 REGRESSIONS = [
     # key, instance, ops, what used to fail
     ("arena(64,8): alloc 16; alloc 18446744073709551608; alloc 8", "a0",
@@ -798,20 +797,20 @@ REGRESSIONS = [
      "get_ptr_node(buffer+SIZE) succeeded whenever the sentinel is 16-aligned; dealloc merged the sentinel into the last free chunk (writing 8 bytes "
      "beyond the buffer) and the next alloc handed out a block that ends beyond the buffer",
      True),
+    # repaired by 23ac203 (the first use must be REPORTED: 'heap region size is too small')
+    ("heap(48): alloc 100", "x0", ["alloc 0 100"],
+     "Heap:add_memory_region only checked that the region holds ONE node but places two: for a region of offset+32 .. offset+63 bytes the size of "
+     "the start node underflowed to about 2^64 and HeapAllocator(48):alloc(100) returned a 100-byte block at offset 40 of the 48-byte buffer",
+     True),
 ]
 
 # defects of the unchanged tree that are still open: replayed every run, reported under their exact key
 # (listed in known_findings/C11.json; proposed repair in harness/C11/proposed_repairs/)
-KNOWN_DEFECTS = [
-    ("heap(48): alloc 100", "x0", ["alloc 0 100"],
-     "Heap:add_memory_region only checks that the region holds ONE node (region_size >= offset + #HeapNode) but places two (start and end node): for a "
-     "region of offset+32 .. offset+63 bytes the size of the start node, heap_size - #HeapNode, underflows to about 2^64 and alloc hands out blocks "
-     "beyond the buffer: HeapAllocator(48):alloc(100) returns a 100-byte block at offset 40 of the 48-byte buffer"),
-]
+KNOWN_DEFECTS = []
 
-# undefined behaviour visible under -fsanitize=alignment only (harness/C11/ubprobe.nelua); an open finding while the probe trips
-UB_KEY = "heap(1001): alloc 8 [-fsanitize=alignment]"
-UB_WHAT = ("Heap:add_memory_region places the end node at heap_start + (region_size - offset - #HeapNode) without rounding: for a SIZE that is not a "
+# undefined behaviour visible under -fsanitize=alignment only (harness/C11/ubprobe.nelua); repaired by 23ac203, the probe must stay clean
+UB_KEY = "regression:heap(1001): alloc 8 [-fsanitize=alignment]"
+UB_WHAT = ("repaired defect is back: Heap:add_memory_region places the end node at heap_start + (region_size - offset - #HeapNode) without rounding: for a SIZE that is not a "
            "multiple of 8 (HeapAllocator(1001)) the end node is not 8-aligned and every access to it (set_used, prev_adj, is_used in dealloc/realloc) "
            "is a misaligned member access, undefined behaviour in the generated C")
 
@@ -1151,8 +1150,6 @@ def correspond(ctx):
 
 
 UNPROVED = [
-    "heap_mem_safe_code_check_full (SpecHeap.v: placement safety under the code's own region-size check, one node) is FALSE of the code (C11_heap_mem_safe_code_check_refuted, open finding, repair proposed in harness/C11/proposed_repairs/05-heap-region-geometry.diff); C11_heap_mem_safe is the statement under hcfg_ok (two nodes)",
-    "C11_heap_mem_writes_aligned carries the hypothesis heap_end mod 8 = 0; without it the model is still self-consistent but the real code accesses the end node misaligned (open finding, same repair: with the rounding heap_end is 16-aligned for every configuration)",
     "heap payload CONTENTS at the memory level: C11_heap_mem_payload_frame proves that the allocator's own writes never touch a live payload, but realloc's memory.copy of a moved block is modelled on the separate byte function (hb_bytes) only, not in the word memory of Heap.v; stack/pool have no such memory-level frame theorem (their headers/links are in-band and covered by the safe theorems' client-write frame condition)",
     "pool: pool_good has no alignment clause beyond 'is a chunk start' (the alignment of T inside the chunk union is the compiler's layout, property C03)",
     "AlignedAllocator: alignment arithmetic, single-step alloc spec and 'fits in a fresh good block of the arena in any reachable arena state' are proved; a history-level theorem over aligned alloc/dealloc/realloc (headers of live aligned blocks are never overwritten) is not; its default realloc's memory.move is not a contents theorem",
